@@ -14,7 +14,7 @@
 #define NOBJ 5
 H4V_IN(uint8_t, rm1);
 H4V_IN(uint8_t, rm2);
-H4V_IN_ARR(uint8_t, look, 6);
+H4V_IN_ARR(uint8_t, look, 7);
 H4V_IN(int32_t, garbage);
 static char  OBJ[NOBJ + 2]; /* distinct addresses used as opaque object pointers */
 static atom_t id[NOBJ + 2];
@@ -34,7 +34,7 @@ static void check_lookup(int k)
 void harness(void)
 {
     int i;
-    H4V_GET(rm1); H4V_GET(rm2); H4V_GET_ARR(look, 6); H4V_GET(garbage);
+    H4V_GET(rm1); H4V_GET(rm2); H4V_GET_ARR(look, 7); H4V_GET(garbage);
     H4V_ASSERT(HAinit_group(AIDGROUP, HS) == SUCCEED, "C13.K1.init");
     H4V_ASSERT(HAinit_group(FIDGROUP, HS) == SUCCEED, "C13.K1.init2");
     for (i = 0; i < NOBJ; i++) {
@@ -49,7 +49,8 @@ void harness(void)
     }
     for (i = 0; i < NOBJ + 2; i++) { int j; for (j = 0; j < i; j++) H4V_ASSERT(id[i] != id[j], "C13.K1.distinct: two live ids are equal"); }
     /* lookups in a symbolic order warm the cache */
-    for (i = 0; i < 3; i++) { H4V_ASSUME(look[i] < NOBJ + 2); check_lookup(look[i]); }
+    /* (an id reaches the front cache slot only after one miss and three hits) */
+    for (i = 0; i < 4; i++) { H4V_ASSUME(look[i] < NOBJ + 2); check_lookup(look[i]); }
     /* remove one (symbolic) id while it may sit in the cache */
 #if VAR == 1
     rm1 = RM1; /* first removal enumerated in this variant */
@@ -68,7 +69,7 @@ void harness(void)
         H4V_ASSERT(HAatom_object(n) == (void *)&OBJ[0], "C13.K1.fresh.obj");
         H4V_ASSERT(HAremove_atom(n) == (void *)&OBJ[0], "C13.K1.fresh.rm");
     }
-    for (i = 3; i < 6; i++) { H4V_ASSUME(look[i] < NOBJ + 2); check_lookup(look[i]); }
+    for (i = 4; i < 7; i++) { H4V_ASSUME(look[i] < NOBJ + 2); check_lookup(look[i]); }
     /* second removal, then everything again */
     H4V_ASSUME(rm2 < NOBJ + 2 && rm2 != rm1);
     H4V_ASSERT(HAremove_atom(id[rm2]) == (void *)&OBJ[rm2], "C13.K1.remove2");
